@@ -202,7 +202,7 @@ def rule_len_reader(ck, fi, consts):
         seen = X.run_frame(fi, consts, h=0x82, m=m, assume={BUF_NONE: True})
         pl = set()
         for n, _c in X.handle_calls(fi):
-            pl |= {u.plen for _e, u in X.frame_states(seen, n)}
+            pl |= {X.plen(u) for _e, u in X.frame_states(seen, n)}
         table[m] = pl
     direct = {m for m, pl in table.items() if pl == {m}}
     ck.ob(R, fi, fi.node, direct == set(range(126)), "reader: length codes 0..125 are the payload length itself (direct set %s)" % _rng(direct), construct="reader direct=%s" % _rng(direct))
@@ -215,7 +215,7 @@ def rule_len_reader(ck, fi, consts):
         fmt = next(iter(pl))[1] if ok else None
         src = next(iter(pl))[2] if ok else None
         want = {126: "H", 127: "Q"}[m]
-        good = ok and isinstance(fmt, str) and fmt[:1] in ("!", ">") and fmt[1:] == want and src == ("hdr", struct.calcsize(fmt))
+        good = ok and isinstance(fmt, str) and fmt[:1] in ("!", ">") and fmt[1:] == want and src == ("read", struct.calcsize(fmt))
         ck.ob(R, fi, fi.node, bool(good), "reader: length code %d reads %d more bytes and decodes them big-endian as '%s' (got %r)" % (m, struct.calcsize("!" + want), want, sorted(map(repr, pl))), construct="reader code=%d -> %s" % (m, sorted(map(repr, pl))))
         if good:
             ext[m] = fmt
@@ -248,7 +248,7 @@ def rule_mask_reader(ck, fi, consts):
             if h == 0x80:
                 # continuation: what is appended must be the (un)masked payload: buf == extended only accepts payloadish; need exact tag
                 tags |= _extend_tags(fi, seen)
-            want = "unmasked" if mbit else "payload"
+            want = "unmasked" if mbit else ("read", 5)
             ck.ob(R, fi, fi.node, tags == {want}, "reader: header 0x%02X with mask bit %d: the payload consumed is %s (got %s)" % (h, bool(mbit), "XOR-ed with the 4-byte key read from this frame" if mbit else "taken as is", sorted(map(repr, tags))), construct="reader h=0x%02X maskbit=%d payload=%s" % (h, bool(mbit), sorted(map(repr, tags))))
 
 
@@ -261,8 +261,9 @@ def rule_header_reads(ck, fi, consts):
             seen = X.run_frame(fi, dict(consts, **{"self.params.max_message_size": 10 ** 9, X.BUF: None}), h=0x82, m=mbit | code)
             exits = [u for _e, u in X.frame_states(seen, fi.cfg.exit) if not u.aborted]
             want = (2,) + ((2,) if code == 126 else ()) + ((8,) if code == 127 else ()) + ((4,) if mbit else ())
-            got = sorted({u.hreads for u in exits})
-            ck.ob(R, fi, fi.node, bool(exits) and got == [want], "second header byte 0x%02X: the fixed-size reads are %s (2 header bytes, extended length, 4-byte key iff masked - also when the payload is empty); got %s" % (mbit | code, list(want), got),
+            got = sorted({u.reads[:-1] for u in exits if u.reads}, key=repr)
+            shape = all(len(u.reads) == len(want) + 1 for u in exits)
+            ck.ob(R, fi, fi.node, bool(exits) and shape and got == [want], "second header byte 0x%02X: the reads before the payload read are %s (2 header bytes, extended length, 4-byte key iff masked - also when the payload is empty), followed by exactly one payload read; got %s" % (mbit | code, list(want), sorted({u.reads for u in exits}, key=repr)),
                   construct="fixed reads m=0x%02X -> %s" % (mbit | code, got))
 
 
@@ -372,28 +373,52 @@ WriteState = X.namedtuple("WriteState", "tags parts hdr")
 
 
 def _write_transfer(payload: str, frame_var: str):
-    def tag_of(e, u):
+    """Every bytes-valued local is tracked as the *sequence of parts* it is made of: "hdr" (a struct.pack result),
+    ("key", n) (os.urandom(n)), ("masked", key name, n), "payload"; `a + b`, `x += b`, `[a, b]` / `(a, b)`,
+    `l.append(b)` / `l.extend([..])` and `b"".join(l)` all concatenate.  ``parts`` of the state is the sequence
+    bound to the frame variable; None = not tracked."""
+
+    def seq_of(e, u):
         if q.is_call(e, "os.urandom") and len(e.args) == 1 and isinstance(e.args[0], ast.Constant):
-            return ("key", e.args[0].value)
+            return (("key", e.args[0].value, None),)
         if q.is_call(e, "_websocket_mask") and len(e.args) == 2:
             k = X._tag_get(u.tags, q.dotted(e.args[0]) or "?")
             d = X._tag_get(u.tags, q.dotted(e.args[1]) or "?")
-            if isinstance(k, tuple) and k[0] == "key" and d == "payload":
-                return ("masked", q.dotted(e.args[0]), k[1])
-            return "badmask"
-        if isinstance(e, ast.BinOp) and isinstance(e.op, ast.Add):
-            l, r = tag_of(e.left, u), tag_of(e.right, u)
-            if isinstance(l, tuple) and l[0] == "key" and isinstance(r, tuple) and r[0] == "masked" and r[1] == q.dotted(e.left):
-                return ("key+masked", l[1])
-            if l == "hdr" and r == "hdr":
-                return "hdr"
-            return "mixed"
+            if isinstance(k, tuple) and len(k) == 1 and k[0][0] == "key" and d == ("payload",):
+                return (("masked", q.dotted(e.args[0]), k[0][1]),)
+            return (("badmask",),)
         if q.is_call(e, "struct.pack"):
-            return "hdr"
+            return ("hdr",)
+        if isinstance(e, ast.Constant) and isinstance(e.value, bytes) and e.value == b"":
+            return ()
+        if isinstance(e, ast.BinOp) and isinstance(e.op, ast.Add):
+            l, r = seq_of(e.left, u), seq_of(e.right, u)
+            return None if l is None or r is None else l + r
+        if isinstance(e, (ast.List, ast.Tuple)):
+            out = ()
+            for x in e.elts:
+                sx = seq_of(x, u)
+                if sx is None:
+                    return None
+                out += sx
+            return out
+        if isinstance(e, ast.Call) and isinstance(e.func, ast.Attribute) and e.func.attr == "join" and isinstance(e.func.value, ast.Constant) and e.func.value.value == b"" and len(e.args) == 1:
+            return seq_of(e.args[0], u)
+        if isinstance(e, ast.Call) and q.call_name(e) in ("bytes", "bytearray", "list", "tuple") and len(e.args) == 1:
+            return seq_of(e.args[0], u)
         d = q.dotted(e) if isinstance(e, (ast.Name, ast.Attribute)) else None
         if d is not None:
-            return X._tag_get(u.tags, d)
+            t = X._tag_get(u.tags, d)
+            if isinstance(t, tuple):
+                # a key variable used as a part remembers its name (so that key and mask call can be tied together)
+                return tuple(("key", x[1], d) if (isinstance(x, tuple) and x[0] == "key" and x[2] is None) else x for x in t)
+            return None
         return None
+
+    def bind(u, name, seq):
+        if name == frame_var:
+            u = u._replace(parts=seq)
+        return u._replace(tags=X._tag_set(u.tags, name, seq))
 
     def utransfer(n, u, env):
         if n.kind != "stmt" or not isinstance(n.ast, ast.stmt):
@@ -403,22 +428,48 @@ def _write_transfer(payload: str, frame_var: str):
             if c.args and isinstance(c.args[0], ast.Constant):
                 vals = tuple(X.fold_in(a, env, "?") for a in c.args[1:])
                 u = u._replace(hdr=u.hdr + ((c.args[0].value, vals),))
-        if isinstance(st, ast.AugAssign) and q.dotted(st.target) == frame_var:
-            t = tag_of(st.value, u) if isinstance(st.op, ast.Add) else "bad"
-            return u._replace(parts=u.parts + (t,))
+        if isinstance(st, ast.Expr) and isinstance(st.value, ast.Call) and isinstance(st.value.func, ast.Attribute) and st.value.func.attr in ("append", "extend") and len(st.value.args) == 1:
+            tgt = q.dotted(st.value.func.value)
+            cur = X._tag_get(u.tags, tgt or "?")
+            add = seq_of(st.value.args[0], u)
+            if tgt is not None and X._tag_get(u.tags, tgt) is not None or tgt == frame_var:
+                return bind(u, tgt, None if (cur is None or add is None) else cur + add)
+            return u
+        if isinstance(st, ast.AugAssign):
+            tgt = q.dotted(st.target)
+            if tgt is None:
+                return u
+            cur = X._tag_get(u.tags, tgt)
+            add = seq_of(st.value, u) if isinstance(st.op, ast.Add) else None
+            if cur is not None or tgt == frame_var:
+                return bind(u, tgt, None if (cur is None or add is None) else cur + add)
+            return u
         if isinstance(st, (ast.Assign, ast.AnnAssign)) and st.value is not None:
-            t = tag_of(st.value, u)
+            seq = seq_of(st.value, u)
             for tg in X._targets(st):
-                if tg == frame_var:
-                    u = u._replace(parts=(t,))
-                else:
-                    u = u._replace(tags=X._tag_set(u.tags, tg, t))
+                u = bind(u, tg, seq)
         else:
             for p in q.assigned_paths(st):
-                u = u._replace(tags=X._tag_set(u.tags, p, None))
+                u = bind(u, p[:-2] if p.endswith("[]") else p, None)
         return u
 
     return utransfer
+
+
+def _body_ok(parts, masked: bool):
+    """(ok, recognised): the frame is header packs followed by the payload (unmasked) or by a fresh 4-byte key and the
+    payload XOR-ed with that same key (masked)."""
+    if parts is None:
+        return False, False
+    pre = [p for p in parts if p == "hdr"]
+    rest = [p for p in parts if p != "hdr"]
+    if list(parts[: len(pre)]) != pre:
+        return False, True  # header packs are not a prefix
+    if not masked:
+        return rest == ["payload"], True
+    if len(rest) == 2 and isinstance(rest[0], tuple) and rest[0][0] == "key" and isinstance(rest[1], tuple) and rest[1][0] == "masked":
+        return rest[0][1] == 4 and rest[1][2] == 4 and rest[0][2] == rest[1][1], True
+    return False, True
 
 
 def rule_writer(ck, wf, consts, direct, ext):
@@ -456,7 +507,7 @@ def rule_writer(ck, wf, consts, direct, ext):
             if flags_p:
                 init_env[flags_p] = 0
             seen = X.explore_consts(wf.cfg, consts, seeds=seeds, init_env=init_env, assume={"self.mask_outgoing": mask_out},
-                                    uinit=WriteState(((data_p, "payload"),), (), ()), utransfer=_write_transfer(data_p, frame_var))
+                                    uinit=WriteState(((data_p, ("payload",)),), None, ()), utransfer=_write_transfer(data_p, frame_var))
             sts = []
             for n, _c in writes:
                 sts += [u for _e, u in X.states_at(seen, n)]
@@ -494,14 +545,13 @@ def rule_writer(ck, wf, consts, direct, ext):
                     minimal = (v > 125) if codes[1:] == "H" else (v > 0xFFFF)
                     ck.ob(RN, wf, wf.node, minimal, "payload length %d uses the minimal length encoding (RFC 6455 5.2; written as %r)" % (v, fmt), construct="minimal len=%d fmt=%r" % (v, fmt))
                 # body
-                body = u.parts[-1] if u.parts else None
-                pre = u.parts[:-1]
+                okb, recognised = _body_ok(u.parts, mask_out)
+                if not recognised:
+                    raise AnalysisError("_write_frame: how the frame buffer written to the stream is assembled is not modelled (expected concatenation / join of struct.pack results, key and payload)")
                 if mask_out:
-                    ok = isinstance(body, tuple) and body[0] == "key+masked" and body[1] == 4 and all(p == "hdr" for p in pre)
-                    ck.ob(RM, wf, wf.node, ok, "mask_outgoing: frame body is a fresh 4-byte os.urandom key followed by the payload XOR-ed with that same key (parts %r)" % (u.parts,), construct="body mask=True parts=%r" % (u.parts,))
+                    ck.ob(RM, wf, wf.node, okb, "mask_outgoing: the frame is the header packs, a fresh 4-byte os.urandom key and the payload XOR-ed with that same key (parts %r)" % (u.parts,), construct="body mask=True parts=%r" % (u.parts,))
                 else:
-                    ok = body == "payload" and all(p == "hdr" for p in pre)
-                    ck.ob(RM, wf, wf.node, ok, "not mask_outgoing: frame body is the payload unchanged, no key (parts %r)" % (u.parts,), construct="body mask=False parts=%r" % (u.parts,))
+                    ck.ob(RM, wf, wf.node, okb, "not mask_outgoing: the frame is the header packs followed by the payload unchanged, no key (parts %r)" % (u.parts,), construct="body mask=False parts=%r" % (u.parts,))
     # first byte: fin/opcode/flags combination for all opcodes
     for fin in (True, False):
         for op in (0, 1, 2, 8, 9, 10):
@@ -513,7 +563,7 @@ def rule_writer(ck, wf, consts, direct, ext):
                 if flags_p:
                     env[flags_p] = fl
                 seen = X.explore_consts(wf.cfg, consts, seeds=seeds, init_env=env, assume={"self.mask_outgoing": False},
-                                        uinit=WriteState(((data_p, "payload"),), (), ()), utransfer=_write_transfer(data_p, frame_var))
+                                        uinit=WriteState(((data_p, ("payload",)),), None, ()), utransfer=_write_transfer(data_p, frame_var))
                 for n, _c in writes:
                     for _e, u in X.states_at(seen, n):
                         want = (0x80 if fin else 0) | op | fl
